@@ -71,6 +71,13 @@ SUMMARY = {
  "C04d": "Bucket.rebalance skips cached child buckets without a materialised root node",
  "C06d": "ReleasePendingPages no longer sorts the reader list (the minimum is taken from an unsorted list after a swap-removal)",
  "C07d": "DeleteBucket skips the nested-bucket scan when the child's root page id is 0 (a bucket moved into a still-inline bucket in the same transaction is leaked)",
+ "C05d": "Cursor.Seek gets a fast path that returns the current element when the cursor already sits on the requested key (stale after a mutation of that key)",
+ "C19d": "recursivelyCheckBucket returns silently when the bucket's root page was already reached (a second reference through a bucket header is never reported)",
+ "C01e": "tx.rollback() reloads the freelist only when tx.pages is non-empty, and Tx.write empties tx.pages first (same idea as C07a, independent)",
+ "C06d": "DB.meta() accepts the higher-txid meta on magic and version alone (same patch as C11c, independent): after a torn meta write the next commit overwrites the newest valid meta",
+ "C08d": "tx.rollback() reloads the freelist from the failed transaction's own (uncommitted) freelist page instead of the committed one",
+ "C12d": "?",
+ "C20d": "?",
 }
 rows = []
 for d in sorted(glob.glob("/verif/seeded/*/meta.json")):
